@@ -116,4 +116,66 @@ THEOREM CeilDivChar ==
 <1>5. CeilDiv(a, b) = q
   BY DEF CeilDiv, q
 <1> QED BY <1>1, <1>3, <1>4, <1>5
+
+(***************************************************************************)
+(* Reagent distribution: the number of multi-dispenses per aspiration that *)
+(* RTPlan!RefMultiDisp chooses satisfies RTPlan!MultiDispOK for every      *)
+(* requested number md0, every volume 0 < v <= M.                          *)
+(***************************************************************************)
+RefMultiDisp(md0, v, M) == IF md0 * v > M THEN M \div v ELSE md0
+
+THEOREM MultiDispValid ==
+  ASSUME NEW md0 \in Nat, md0 >= 1, NEW v \in Nat, v > 0, NEW M \in Nat, v <= M,
+         NEW md, md = RefMultiDisp(md0, v, M)
+  PROVE  /\ md \in Nat /\ md >= 1 /\ md <= md0
+         /\ md * v <= M
+         /\ (md0 * v <= M => md = md0)
+         /\ (md0 * v > M => (md + 1) * v > M)
+<1> DEFINE q == M \div v
+<1> DEFINE r == M % v
+<1>1. M = v * q + r /\ r \in 0..(v - 1) /\ q \in Nat
+  BY DivMod
+<1> HIDE DEF q, r
+<1>2. q * v = v * q
+  BY <1>1
+<1>3. q * v <= M
+  BY <1>1, <1>2
+<1>4. (q + 1) * v > M
+  <2>1. (q + 1) * v = q * v + v
+    BY <1>1
+  <2> QED BY <1>1, <1>2, <2>1
+<1>5. q >= 1
+  <2>1. CASE q = 0
+    <3>1. M = r
+      BY <1>1, <2>1
+    <3> QED BY <3>1, <1>1
+  <2> QED BY <2>1, <1>1
+<1>6. CASE md0 * v <= M
+  <2>1. md = md0
+    BY <1>6 DEF RefMultiDisp
+  <2> QED BY <2>1, <1>6
+<1>7. CASE md0 * v > M
+  <2>1. md = q
+    BY <1>7 DEF RefMultiDisp, q
+  <2>2. q <= md0
+    <3>1. CASE q > md0
+      <4> DEFINE d == q - md0
+      <4>1. d \in Nat
+        BY <3>1, <1>1
+      <4>2. q * v = md0 * v + d * v
+        BY <1>1
+      <4>3. d * v >= 0
+        BY <4>1
+      <4> QED BY <4>1, <4>2, <4>3, <1>1, <1>3, <1>7
+    <3> QED BY <3>1, <1>1
+  <2>3. md \in Nat /\ md >= 1 /\ md <= md0
+    BY <2>1, <2>2, <1>1, <1>5
+  <2>4. md * v <= M
+    BY <2>1, <1>3
+  <2>5. (md + 1) * v > M
+    BY <2>1, <1>4
+  <2>6. md0 * v <= M => md = md0
+    BY <1>7
+  <2> QED BY <2>3, <2>4, <2>5, <2>6
+<1> QED BY <1>6, <1>7
 =============================================================================
